@@ -46,31 +46,46 @@ def _run(case):
     bumps = [k * 0.5 for k in range(1, int(T / 0.5) + 2)]
     for b in bumps:
         env.schedule_event(b, -6, bump, EventType.OTHER_HIGH_PRIORITY)
-    ps = PeriodicSensor(iv, [AttributeProbe('w', tg), Probe(lambda t: t.v, tg)], 'ps', data_capacity=cap)
-    os_ = OutputPartSensor(P, [AttributeProbe('quality', None), AttributeProbe('name', None)], n, 'os',
-                           data_capacity=cap)
+    box = {}
     cb = []
-    for i in range(case['ncb']):
-        ps.add_on_sense_callback(lambda se, t, d, i=i: cb.append((i, se, t, list(d), env.now)))
     ocb = []
-    os_.add_on_sense_callback(lambda se, t, d: ocb.append((se, t, list(d), env.now)))
     cm = []
+    t0 = case.get('late') or 0      # the periodic sensor (and the cms wiring) may be created while the run is under way
 
     class C(Cms):
         def on_sense(self, sensor, time, data):
-            cm.append((sensor.name, time, list(data)))
+            cm.append((sensor.name if sensor is not box.get('twin') else 'twin', time, list(data)))
     c = C(None, 'cms')
-    for nm in case['cms']:
-        c.add_sensor(ps if nm == 'ps' else os_)
+    os_ = OutputPartSensor(P, [AttributeProbe('quality', None), AttributeProbe('name', None)], n, 'os',
+                           data_capacity=cap)
+    os_.add_on_sense_callback(lambda se, t, d: ocb.append((se, t, list(d), env.now)))
+
+    def make_periodic():
+        ps = PeriodicSensor(iv, [AttributeProbe('w', tg), Probe(lambda t: t.v, tg)], 'ps', data_capacity=cap)
+        box['ps'] = ps
+        for i in range(case['ncb']):
+            ps.add_on_sense_callback(lambda se, t, d, i=i: cb.append((i, se, t, list(d), env.now)))
+        if case.get('twin_name'):
+            # a second, different sensor that carries the same user-chosen name
+            box['twin'] = PeriodicSensor(case['twin_name'], [AttributeProbe('w', tg)], 'ps')
+        for nm in case['cms']:
+            c.add_sensor(ps if nm == 'ps' else os_)
+        if case.get('twin_name') and 'ps' in case['cms']:
+            c.add_sensor(box['twin'])
+    if t0:
+        env.schedule_event(t0, -6, make_periodic, EventType.OTHER_HIGH_PRIORITY + 1)
+    else:
+        make_periodic()
     if case.get('fault'):
         tf, tr = case['fault']
         env.schedule_event(tf, -6, lambda: P.schedule_failure(env.now), EventType.OTHER_LOW_PRIORITY)
         env.schedule_event(tr, -6, P.restore_functionality, EventType.RESTORE)
     s.simulate(T, print_summary=False)
+    ps = box['ps']
 
-    # ---- periodic sensor: k-th sample at the k-fold repeated addition of the interval
+    # ---- periodic sensor: k-th sample at the k-fold repeated addition of the interval, counted from its start
     times = []
-    t = 0
+    t = t0
     while True:
         t = t + iv
         if t > T:
@@ -123,8 +138,20 @@ def _run(case):
                         f'{len(times)} were taken')
     if 'ps' not in case['cms'] and [x for x in cm if x[0] == 'ps']:
         raise Violation('C19.cms', 'cms received measurements of a sensor that was never added')
-    if 'os' in case['cms'] and [x[1] for x in cm if x[0] == 'os'] != [r[0] for r in sel]:
+    if case.get('twin_name') and 'ps' in case['cms']:
+        tw = []
+        t = t0
+        while True:
+            t = t + case['twin_name']
+            if t > T:
+                break
+            tw.append(t)
+        if [x[1] for x in cm if x[0] == 'twin'] != tw:
+            raise Violation('C19.cms', f'cms received {len([x for x in cm if x[0] == "twin"])} measurements of a second '
+                            f'registered sensor that has the same name as the first, {len(tw)} were taken')
+    since = [r[0] for r in sel if r[0] >= t0]       # the cms hears of measurements taken after the sensor was added
+    if 'os' in case['cms'] and [x[1] for x in cm if x[0] == 'os'] != since:
         raise Violation('C19.cms', f'cms received {len([x for x in cm if x[0] == "os"])} part measurements, '
-                        f'{len(sel)} were taken')
+                        f'{len(since)} were taken since the sensor was added')
     return {'samples': len(times) + len(sel), 'periodic': len(times), 'parts': len(sel),
             'over_capacity': cap != INF and (len(times) > cap or len(sel) > cap)}
